@@ -141,3 +141,28 @@ Section OwnProofs.
     rewrite (tok_read _ _ _ T). split; [reflexivity|]. now apply check_sign.
   Qed.
 End OwnProofs.
+
+(** ** The signer uses the whole key *)
+Section KeyUsedProofs.
+  Variable mac : bytes -> bytes -> bytes.
+  Hypothesis mac_len : forall k d, length (mac k d) = mac_size.
+
+  (** With the whole key stored, the object's key is the key it was given, so a
+      blob issued under [key] is refused under [key'] exactly when the MACs under
+      the two GIVEN keys differ (no pair of keys is confused by the object). *)
+  Theorem key_used_is_key key : keep_all key = key.
+  Proof. reflexivity. Qed.
+
+  Theorem whole_key_other_key_rejected key key' d :
+    obj_check mac keep_all key' (obj_sign mac keep_all key d) = None <-> mac key' d <> mac key d.
+  Proof. unfold obj_check, obj_sign, keep_all. now apply other_key_iff. Qed.
+
+  (** A constructor that keeps only the first [n] bytes: two keys that agree on
+      those bytes verify each other's blobs, whatever the MAC. *)
+  Theorem truncating_constructor_refuted n key key' d :
+    firstn n key = firstn n key' ->
+    obj_check mac (keep_first n) key' (obj_sign mac (keep_first n) key d) = Some d.
+  Proof.
+    intros E. unfold obj_check, obj_sign, keep_first. rewrite E. now apply check_sign.
+  Qed.
+End KeyUsedProofs.
